@@ -100,6 +100,12 @@ class Ctx:
                            if not ok else "a sabotaged observation line was not reported by the comparison"), [c], {"H": h})
 
     # ---- evaluation helpers -------------------------------------------------------------------
+    def check_absolute_shrunk(self, cases, res, sigfn=None, project=None):
+        """`check_absolute`, then minimise the first failing cases (what the replay files then contain)"""
+        self.check_absolute(cases, res, sigfn=sigfn, project=project)
+        if any(v.kind == "predicate" for v in self.violations):
+            self.shrink_absolute(project=project, sigfn=sigfn)
+
     def check_absolute(self, cases, res, skip=("bufstate", "text"), sigfn=None, project=None):
         """per line: implementation vs spec (the property's predicate) and vs the impl-mirror model
         (correspondence)."""
@@ -133,6 +139,42 @@ class Ctx:
                     self.violation("correspondence", f"op {i} {op[:60]!r}: implementation gives {hi!r}, the model mirror gives {mi!r} (spec allows both)",
                                    [c], {"H": h, "impl": m, "spec": s})
                     break
+
+    def shrink_absolute(self, max_n=3, project=None, sigfn=None):
+        """minimise the op sequences of the first few single-case predicate violations found by `check_absolute`:
+        greedily delete operations while the implementation still disagrees with the definition on the reduced case
+        (both sides are re-run).  The reduced case replaces the original in the violation (and so in the replay)."""
+        done = 0
+        for v in self.violations:
+            if done >= max_n:
+                break
+            if v.kind != "predicate" or len(v.cases) != 1 or not v.cases[0].ops or getattr(v, "shrunk", False):
+                continue
+            c0 = v.cases[0]
+            ops = list(c0.ops)
+            best = None
+            i = len(ops) - 1
+            budget = 40
+            while i >= 0 and budget > 0 and len(ops) > 1:
+                cand_ops = ops[:i] + ops[i + 1:]
+                cand = Case(c0.family, c0.mode, c0.bs, c0.w, c0.key, c0.iv, ops=cand_ops, **{k: x for k, x in c0.meta.items() if k != "tab"})
+                budget -= 1
+                try:
+                    res = execute([cand], self.hbin)
+                except Exception:
+                    break
+                probe = Ctx(self.prop, self.tier, self.seed, self.hbin)
+                probe.check_absolute([cand], res, sigfn=sigfn, project=project)
+                pv = [x for x in probe.violations if x.kind == "predicate"]
+                if pv and (v.sig is None or pv[0].sig == v.sig):
+                    ops, best = cand_ops, pv[0]
+                i -= 1
+                i = min(i, len(ops) - 1)
+            if best is not None:
+                v.detail = best.detail + f"   [shrunk from {len(c0.ops)} to {len(ops)} operations]"
+                v.cases, v.obs = best.cases, best.obs
+            v.shrunk = True
+            done += 1
 
     def no_panic(self, cases, res):
         for c in cases:
